@@ -729,7 +729,15 @@ func (c *pathBuilderVisitor) fieldIsChildNode(plannerIdx int) bool {
 	path := c.walker.Path.DotDelimitedString()
 	plannerPath := c.planners[plannerIdx].ParentPath()
 	fieldPath := strings.TrimPrefix(path, plannerPath)
-	return strings.ContainsAny(fieldPath, ".")
+	// The planner path of a field planned inside an inline fragment is the path preceding the
+	// fragment (see addNewPlanner), so fragment segments between the planner path and the field
+	// do not make the field a child node: it is still a root field of the fetch.
+	for _, segment := range strings.Split(fieldPath, ".") {
+		if segment != "" && !strings.HasPrefix(segment, ast.InlineFragmentPathPrefix) {
+			return true
+		}
+	}
+	return false
 }
 
 // recordFieldPlannedOn - records the planner id on which the field was planned
